@@ -71,6 +71,9 @@ func main() {
 			e.emit(c.Op, c.ID, c.In, out)
 			e.flush()
 		}
+		for _, f := range cleanups {
+			f()
+		}
 	default:
 		if f, ok := subcommands[os.Args[1]]; ok {
 			f(os.Args[2:])
